@@ -71,6 +71,7 @@ structure Sample where
   lps : Int
   lpe : Int
   floop : Bool               -- XMP_SAMPLE_LOOP
+  floopBidir : Bool := false -- XMP_SAMPLE_LOOP_BIDIR
   fsloop : Bool              -- XMP_SAMPLE_SLOOP
   fsloopBidir : Bool         -- XMP_SAMPLE_SLOOP_BIDIR
   other : Nat                -- remaining flag bits
@@ -234,13 +235,22 @@ def epilogueSmp (s : Sample) (x : Xtra) : Sample × Xtra :=
     ({ s with fsloop := false, fsloopBidir := false }, { sus := 0, sue := 0 })
   else (s, { sus := sus, sue := sue })
 
-/-- one iteration of the sustain-loop `for`: the sample side … -/
+/-- "Never leave a loop flagged that lies outside the data of a loaded sample":
+the epilogue's loop block for one sample -/
+def epilogueLoop (s : Sample) : Sample :=
+  if s.hasData && s.floop && (decide (s.lps < 0) || decide (s.lpe > s.len) || decide (s.lps ≥ s.lpe)) then
+    { s with lps := 0, lpe := 0, floop := false, floopBidir := false }
+  else s
+
+/-- the two per-sample loops of the epilogue (loop block, then sustain-loop block): the sample side … -/
 def smpStepS (smp : Int) (xtra : List Xtra) (i : Nat) (s : Sample) : Sample :=
-  if (i : Int) < smp then (match xtra[i]? with | some x => (epilogueSmp s x).1 | none => s) else s
+  if (i : Int) < smp then
+    (match xtra[i]? with | some x => (epilogueSmp (epilogueLoop s) x).1 | none => epilogueLoop s)
+  else s
 
 /-- … and the `m->xtra[i]` side -/
 def smpStepX (smp : Int) (xxs : List Sample) (i : Nat) (x : Xtra) : Xtra :=
-  if (i : Int) < smp then (match xxs[i]? with | some s => (epilogueSmp s x).2 | none => x) else x
+  if (i : Int) < smp then (match xxs[i]? with | some s => (epilogueSmp (epilogueLoop s) x).2 | none => x) else x
 
 def epilogue (m : Module) : Module :=
   let len := clampC m.len 0 xmpMaxModLength
@@ -442,6 +452,14 @@ def sampleOK (s : Sample) : Bool :=
     (decide (0 ≤ s.lps) && decide (s.lps ≤ s.lpe) && decide (s.lpe ≤ s.len)
      && (!s.floop || decide (s.lps < s.lpe)) && s.guardOK)
 
+/-- a sample that has data and the LOOP flag has `0 ≤ lps < lpe ≤ len` (guaranteed on
+the common path by the epilogue's loop block) -/
+def sampleLoopOK (s : Sample) : Bool :=
+  !(s.hasData && s.floop) || (decide (0 ≤ s.lps) && decide (s.lps < s.lpe) && decide (s.lpe ≤ s.len))
+
+def sampleLoopsOK (m : Module) : Bool :=
+  allBelow m.smp fun i => match m.xxs[i]? with | none => true | some s => sampleLoopOK s
+
 def samplesOK (m : Module) : Bool :=
   allBelow m.smp fun i => match m.xxs[i]? with | none => false | some s => sampleOK s
 
@@ -529,14 +547,15 @@ def wfClauses (m : Module) : List (String × Bool) :=
     ("samples", samplesOK m), ("envelopes", envelopesOK m), ("names", namesOK m), ("rst", rstOK m),
     ("spd", spdOK m), ("bpm", bpmOK m), ("sequences", sequencesOK m), ("sequence_control", seqCtlOK m),
     ("channels", channelsOK m), ("orders", ordersOK m), ("sustain", sustainOK m),
-    ("envelopes_upper", envelopesUpperOK m), ("rst_upper", rstUpperOK m) ]
+    ("envelopes_upper", envelopesUpperOK m), ("rst_upper", rstUpperOK m),
+    ("sample_loops", sampleLoopsOK m) ]
 
 def WF (m : Module) : Bool := (wfClauses m).all (·.2)
 
 /-- What the common post-load path guarantees for *arbitrary* raw modules. -/
 def WFCommon (m : Module) : Bool :=
   countsOK m && patternsOK m && rstUpperOK m && spdOK m && bpmOK m && channelsOK m
-  && envelopesUpperOK m && sustainOK m && ordersOK m && sequencesOK m && seqCtlOK m
+  && envelopesUpperOK m && sustainOK m && ordersOK m && sequencesOK m && seqCtlOK m && sampleLoopsOK m
 
 /-! ## Flag words -/
 
@@ -551,12 +570,13 @@ def Envelope.toFlg (e : Envelope) : Nat :=
   e.other ||| (if e.on then xmpEnvelopeOn else 0) ||| (if e.fsus then xmpEnvelopeSus else 0)
   ||| (if e.floop then xmpEnvelopeLoop else 0)
 
-def Sample.flagsOf (flg : Nat) : Bool × Bool × Bool × Nat :=
-  (bit flg xmpSampleLoop, bit flg xmpSampleSloop, bit flg xmpSampleSloopBidir,
-   flg &&& (0xffffffff ^^^ (xmpSampleLoop ||| xmpSampleSloop ||| xmpSampleSloopBidir)))
+def Sample.flagsOf (flg : Nat) : Bool × Bool × Bool × Bool × Nat :=
+  (bit flg xmpSampleLoop, bit flg xmpSampleLoopBidir, bit flg xmpSampleSloop, bit flg xmpSampleSloopBidir,
+   flg &&& (0xffffffff ^^^ (xmpSampleLoop ||| xmpSampleLoopBidir ||| xmpSampleSloop ||| xmpSampleSloopBidir)))
 
 def Sample.toFlg (s : Sample) : Nat :=
-  s.other ||| (if s.floop then xmpSampleLoop else 0) ||| (if s.fsloop then xmpSampleSloop else 0)
+  s.other ||| (if s.floop then xmpSampleLoop else 0) ||| (if s.floopBidir then xmpSampleLoopBidir else 0)
+  ||| (if s.fsloop then xmpSampleSloop else 0)
   ||| (if s.fsloopBidir then xmpSampleSloopBidir else 0)
 
 end Xmp.LoadPost
